@@ -75,6 +75,9 @@ pub(super) fn split_off_back(
         return (None, Vec::new());
     }
 
+    #[cfg(prql_verif)]
+    let (verif_input, verif_output) = (pipeline.clone(), output.clone());
+
     let mapping_before = compute_positional_mappings(&pipeline, None);
 
     log::debug!("traversing pipeline to obtain columns: {output:?}");
@@ -195,6 +198,13 @@ pub(super) fn split_off_back(
                 .compute_and_store_mapping(before, &after, &riid);
         }
     }
+
+    #[cfg(prql_verif)]
+    crate::debug::verif::emit("split", || {
+        serde_json::json!({"input": verif_input, "output": verif_output,
+            "preceding": remaining_pipeline, "atomic": curr_pipeline_rev})
+        .to_string()
+    });
 
     (remaining_pipeline, curr_pipeline_rev)
 }
